@@ -112,7 +112,9 @@ func (c *Cache) ClearOldEntries(d time.Duration) {
 	defer c.mux.Unlock()
 	for ke, ce := range c.entries {
 		for k, e := range ce.replayMap {
-			if time.Now().UTC().Sub(e.presentedTime) > d {
+			// An entry must outlive the period in which its client time still passes the clock skew check,
+			// which for a client whose clock runs ahead is longer than d after it was presented.
+			if time.Now().UTC().Sub(e.presentedTime) > d && time.Now().UTC().Sub(e.cTime) > d {
 				delete(ce.replayMap, k)
 			}
 		}
